@@ -49,13 +49,13 @@ def cancelOpt (l : Loop Cb) (own : Cb → Bool) : Option Nat → Loop Cb
 /-- is some timer due? -/
 def anyDue (l : Loop Cb) : Bool := l.timers.any (fun t => decide (t.deadline ≤ l.now))
 
-/-- `fire s`: move the due timer `s` to the tail of the ready queue -/
+/-- `fire s`: move the due timer `s` (one handle: the first with that sequence number) to the tail of the ready queue -/
 def fire (l : Loop Cb) (seq : Nat) : Option (Loop Cb) :=
   match l.timers.find? (fun t => decide (t.seq = seq)) with
   | none => none
   | some t =>
     if t.deadline ≤ l.now then
-      some { l with timers := l.timers.filter (fun t => decide (t.seq ≠ seq)), ready := l.ready ++ [⟨some seq, t.cb⟩] }
+      some { l with timers := l.timers.eraseP (fun t => decide (t.seq = seq)), ready := l.ready ++ [⟨some seq, t.cb⟩] }
     else none
 
 /-- `adv t`: only when idle, never past a deadline (prompt loop) -/
